@@ -251,6 +251,28 @@ def run(ctx):
             res.check(ok, "G-DIMSEQ", mv.fi.short, norm(n), "guarded", f"a hyperedge of randomly drawn size (`{norm(drawn[0])[:60]}`) is added on a path where the size sequence may be forced: the sample then has more hyperedges of that size than the conditioned count", loc(mv.fi, n))
         if n_extra == 0:
             res.unknown("G-DIMSEQ", mv.fi.short, "hye_list.append(self._extract_hye(nodes_with_deg, <drawn size>, ...))", "guarded", "no top-up with hyperedges of drawn size recognised", loc(mv.fi, mv.fi.node))
+    # ---- Y-2PHASE: a hyperedge is drawn class by class from the residual-degree table and the table is updated AFTERWARDS: an
+    #      update inside the drawing loop moves a drawn node into the next class, where the same hyperedge can draw it again
+    with res.guard("Y-2PHASE"):
+        res.rules["Y-2PHASE"] = "_extract_hye draws all nodes of a hyperedge before it updates the residual-degree table it draws from (no store into the table inside the drawing loop)"
+        xv = ctx.view("HyMMSBMSampler._extract_hye")
+        xp = [a.arg for a in xv.fi.params]
+        n_loops = 0
+        for lp in [n for n in walk_no_nested(xv.fi.node) if isinstance(n, (ast.For, ast.While))]:
+            draws = [c for c in ast.walk(lp) if isinstance(c, ast.Call) and isinstance(c.func, ast.Attribute) and c.func.attr in ("choice", "sample", "permutation", "shuffle") and any(isinstance(x, ast.Attribute) and x.attr.endswith("rng") for x in ast.walk(c.func))]
+            tabs = {x.id for c in draws for x in ast.walk(c) if isinstance(x, ast.Name) and x.id in xp and x.id != "self"}
+            tabs = {t for t in tabs if any(isinstance(x, ast.Subscript) and isinstance(x.value, ast.Name) and x.value.id == t for c in draws for x in ast.walk(c))}
+            if not draws or not tabs:
+                continue
+            n_loops += 1
+            stores = [n for n in ast.walk(lp) if isinstance(n, (ast.Assign, ast.AugAssign)) and any(isinstance(t, ast.Subscript) and isinstance(t.value, ast.Name) and t.value.id in tabs for t in (n.targets if isinstance(n, ast.Assign) else [n.target]))]
+            stores += [n for n in ast.walk(lp) if isinstance(n, ast.Call) and isinstance(n.func, ast.Attribute) and n.func.attr in ("add", "discard", "remove", "update", "pop", "difference_update") and isinstance(n.func.value, ast.Subscript) and isinstance(n.func.value.value, ast.Name) and n.func.value.value.id in tabs]
+            if stores:
+                res.violation("Y-2PHASE", xv.fi.short, norm(stores[0])[:110], "draw-then-update", f"`{sorted(tabs)[0]}` is updated inside the loop that draws the nodes of the hyperedge from it: a node moved down one degree class can be drawn again for the same hyperedge (the hyperedge comes out one node short and the node loses two units of degree)", loc(xv.fi, stores[0]))
+            else:
+                res.ok("Y-2PHASE", xv.fi.short, norm(draws[0])[:110], "draw-then-update", loc(xv.fi, draws[0]))
+        if n_loops == 0:
+            res.unknown("Y-2PHASE", xv.fi.short, "while n_nodes_sampled < hye_size: ... rng.choice(list(nodes_with_deg[deg]), ...)", "draw-then-update", "the drawing loop was not recognised", loc(xv.fi, xv.fi.node))
     with res.guard("Y-WEIGHTED"):
         v = ctx.view("HyMMSBMSampler.sample")
         f = v.fi.short
